@@ -218,6 +218,8 @@ STYLE_MENU = [
   {}, {"FontWeight": BOLD}, {"FontStyle": ITALIC}, {"TextDecoration": UNDER}, {"Color": RED}, {"BackgroundColor": BLUE},
   {"FontWeight": BOLD, "FontStyle": ITALIC}, {"FontWeight": NORMALW}, {"Color": WHITE}, {"TextDecoration": NOUNDER},
   {"Color": BLUE, "TextDecoration": UNDER},
+  # colours without a predefined WebVTT class: the writer must define a class in the STYLE block of the same file
+  {"Color": ["C", 18, 52, 86, 255]}, {"Color": ["C", 18, 52, 86, 255], "BackgroundColor": ["C", 1, 2, 3, 128]},
 ]
 
 
